@@ -1,9 +1,35 @@
 import PyamgV.Driver.Util
-/-! Driver ops of extension task E18 (op names prefixed `ext_`). -/
+import PyamgV.Model.ExtC12Lloyd
+/-! Driver ops of extension task E18 (op names prefixed `ext_`): Lloyd clustering / aggregation (C12).
+
+* `ext_c12_lloyd n ap aj ax centres maxiter` -> `clusters;centres` | `ValueError` | `diverges`
+* `ext_c12_lloyd_agg measure ratio n ap aj ax perm maxiter` -> `indptr;indices;data;centres` | ...
+* `ext_c12_most_interior n ap aj ax c m p` -> `c;d;m;p;changed` | `diverges` (raw kernel)
+* `ext_c12_aggop clusters` -> `indptr;indices;data` -/
 namespace PyamgV.Drv.ExtE18
 open PyamgV PyamgV.Drv
 
+def mk (n ap aj ax : String) : N.Csr := ⟨nat n, parseNats ap, parseNats aj, parseRats ax⟩
+def showAgg (t : Array Nat × Array Nat × Array Int) : String :=
+  showNats t.1 ++ ";" ++ showNats t.2.1 ++ ";" ++ showInts t.2.2
+
 def handle : List String → Option String
+  | ["ext_c12_lloyd", n, ap, aj, ax, c, maxiter] =>
+    some <| match ExtLloyd.lloydCluster (mk n ap aj ax) (parseInts c) (nat maxiter) with
+      | .error e => e
+      | .ok none => "diverges"
+      | .ok (some (cl, ce)) => showInts cl ++ ";" ++ showNats ce
+  | ["ext_c12_lloyd_agg", measure, ratio, n, ap, aj, ax, perm, maxiter] =>
+    some <| match ExtLloyd.lloydAggregation (mk n ap aj ax) measure (parseRat ratio) (parseInts perm) (nat maxiter) with
+      | .error e => e
+      | .ok none => "diverges"
+      | .ok (some (agg, ce)) => showAgg agg ++ ";" ++ showNats ce
+  | ["ext_c12_most_interior", n, ap, aj, ax, c, m, p] =>
+    some <| match ExtLloyd.mostInterior (mk n ap aj ax) (parseNats c) (parseInts m) (parseInts p) with
+      | none => "diverges"
+      | some (c', (d, m', p'), ch) =>
+        showNats c' ++ ";" ++ showORats d ++ ";" ++ showInts m' ++ ";" ++ showInts p' ++ ";" ++ toString ch
+  | ["ext_c12_aggop", cl] => some <| showAgg (ExtLloyd.aggOp (parseInts cl))
   | _ => none
 
 end PyamgV.Drv.ExtE18
